@@ -2,6 +2,7 @@ package driver
 
 import (
 	"fmt"
+	"strings"
 	"math/rand"
 	"strconv"
 
@@ -1000,6 +1001,15 @@ func planC09(tier string, seed int64) (*Plan, error) {
 			jobs = append(jobs, job("H_c09_indep", "cfg", c, "an", 1, "bn", na+1, "alphaA", alphas[(i+1)%len(alphas)], "alphaB", al))
 		}
 	}
+	// unmatched backticks in A, code spans in B
+	jobs = append(jobs, job("H_c09_indep", "cfg", core, "an", 2, "bn", 3, "alphaA", "`a\n", "alphaB", "`a\n"))
+	jobs = append(jobs, job("H_c09_indep", "cfg", gfm, "an", 3, "bn", 3, "alphaA", "`a ", "alphaB", "`a"))
+	// A closed by construction: a one-line or closed HTML block / a closed fence, with a symbolic byte inside; B free
+	for i, ta := range []tmpl{{"<!XX>", 2, 2}, {"<!DOCTYPE hXml>", 11, 1}, {"<?X?>", 2, 1}, {"<!--X-->", 4, 1}, {"<![CDATA[X]]>", 9, 1}, {"<pre>X</pre>", 5, 1}, {"a\n\n<!X>", 5, 1}, {"```\nX\n```", 4, 1}, {"~~~~\nX\n~~~~\n", 5, 1}, {"<div>\nX\n</div>\n", 6, 1}} {
+		c := []string{core, gfm}[i%2]
+		jobs = append(jobs, job("H_c09_indep", "cfg", c, "trustA", 1, "seedA", ta.Seed, "posA", ta.Pos, "wA", ta.W, "bn", 1))
+		jobs = append(jobs, job("H_c09_indep", "cfg", c, "trustA", 1, "seedA", ta.Seed, "posA", ta.Pos, "wA", ta.W, "bn", 3, "alphaB", "a\n >"))
+	}
 	docs, err := LoadCorpus()
 	if err != nil {
 		return nil, err
@@ -1008,7 +1018,7 @@ func planC09(tier string, seed int64) (*Plan, error) {
 	for _, d := range docs {
 		if !hasAny(d.Markdown, "[\r") && len(d.Markdown) > 0 {
 			okB = append(okB, d)
-			if !hasAny(d.Markdown, "`~<") {
+			if !hasAny(d.Markdown, "<") && !strings.Contains(d.Markdown, "```") && !strings.Contains(d.Markdown, "~~~") {
 				okA = append(okA, d)
 			}
 		}
@@ -1035,12 +1045,18 @@ func planC09(tier string, seed int64) (*Plan, error) {
 		jobs = append(jobs, job("H_c09_indep", "cfg", core, "seedA", da.Markdown, "posA", ra.Intn(len(da.Markdown)+1), "wA", 1, "seedB", db.Markdown, "posB", ra.Intn(len(db.Markdown)+1), "wB", 1))
 	}
 	// reference definitions from anywhere
-	for r := 0; r < 5; r++ {
+	for r := 0; r < 11; r++ {
 		for _, ws := range []string{" ", "  ", " \n ", "\t"} {
+			if r >= 5 && ws != " " {
+				continue
+			}
 			c := []string{core, gfm}[r%2]
 			jobs = append(jobs, job("H_c09_refs", "cfg", c, "ref", r, "ws", ws))
 		}
 		for _, pad := range []int{300, 1100, 4200} {
+			if r >= 5 {
+				break
+			}
 			jobs = append(jobs, job("H_c09_refs", "cfg", core, "ref", r, "ws", " ", "pad", pad, "flipmask", ra.Intn(1<<20), "window", 1, "pos", pad+3+r))
 		}
 		// windows inside X with fixed label spelling flips still symbolic
@@ -1049,7 +1065,7 @@ func planC09(tier string, seed int64) (*Plan, error) {
 		if thorough {
 			step = 1
 		}
-		for q := int(seed) % step; q <= xl; q += step {
+		for q := int(seed) % step; q <= xl && r < 5; q += step {
 			jobs = append(jobs, job("H_c09_refs", "cfg", core, "ref", r, "ws", " ", "window", 1, "pos", q, "flipmask", ra.Intn(1<<20)))
 		}
 	}
@@ -1058,8 +1074,8 @@ func planC09(tier string, seed int64) (*Plan, error) {
 		"S(an)xS(bn)":   "A and B jointly symbolic, every byte string: lengths (an,bn) with an+bn<=2 x {core unsafe, GFM safe} and (2,1) core (thorough: all an+bn<=3 both configurations, (2,2), (3,0), (0,3))",
 		"alphabets":     fmt.Sprintf("A of length %d and B of length %d over the same alphabet; A of %d with B of 1 and A of 1 with B of %d over neighbouring alphabets (quick: a seeded third of them): %q", na, nb, na+1, na+1, alphas),
 		"corpus":        fmt.Sprintf("%d seeded (closed corpus document A, offset) pairs with one symbolic byte and a free 1-byte B; the same for B with a free 1-byte A; %d pairs of corpus documents with one symbolic byte in each", nwin, nwin/2),
-		"closed(A)":     "syntactic sufficient condition assumed by the solver: no ` ~ < [ CR in A; last non-blank line of A has no TAB and no run of 4 spaces. B: no [ and no CR",
-		"references":    "5 reference templates x 4 whitespace spellings inside labels x every per-letter case flip of every use of a label (symbolic bits); plus a 1-byte symbolic window (not ` ~ < : CR) at seeded offsets of X under a seeded case-flip mask; the same behind an unrelated paragraph of 300, 1100 and 4200 bytes",
+		"closed(A)":     "syntactic sufficient condition assumed by the solver: no < [ CR in A, no run of three backticks or tildes; last non-blank line of A has no TAB and no run of 4 spaces. B: no [ and no CR. In addition 10 templates of A closed by construction (one-line HTML blocks of types 2-5, <pre>, <div> block, closed fences) with a symbolic byte inside and a free B",
+		"references":    "11 reference templates (6 of them ending in a one-line/closed HTML block or closed fence directly in front of the moved definitions) x 4 whitespace spellings inside labels x every per-letter case flip of every use of a label (symbolic bits); plus a 1-byte symbolic window (not ` ~ < : CR) at seeded offsets of X under a seeded case-flip mask; the same behind an unrelated paragraph of 300, 1100 and 4200 bytes",
 		"outside":       "semantically closed documents that do not meet the syntactic condition; longer A/B",
 	}
 	p.Rule = "three conversions per path (A, B, joined) / two (definitions on top, at the end)"
